@@ -443,62 +443,73 @@ func TestC14(t *testing.T) {
 		s := &sp.Spaces[si]
 		for _, srcKind := range []string{"RGBA64", "NRGBA64"} {
 			for _, op := range []string{"Linearise", "Encode"} {
-				var src image.Image
-				alphaAt := func(x, y int) uint16 { return uint16(y*256 + x) }
-				if srcKind == "RGBA64" {
-					m := image.NewRGBA64(image.Rect(-5, 3, 251, 259))
-					for y := 0; y < 256; y++ {
-						for x := 0; x < 256; x++ {
-							a := alphaAt(x, y)
-							m.SetRGBA64(x-5, y+3, color.RGBA64{R: a / 2, G: a, B: a / 7, A: a})
-						}
+				for _, layout := range []string{"plain", "source is a sub-image", "destination is a sub-image"} {
+					var src image.Image
+					alphaAt := func(x, y int) uint16 { return uint16(y*256 + x) }
+					srcParent := image.Rect(-5, 3, 251, 259)
+					if layout == "source is a sub-image" {
+						srcParent = image.Rect(-9, 1, 258, 262) // same visible pixels, wider rows
 					}
-					src = m
-				} else {
-					m := image.NewNRGBA64(image.Rect(-5, 3, 251, 259))
-					for y := 0; y < 256; y++ {
-						for x := 0; x < 256; x++ {
-							m.SetNRGBA64(x-5, y+3, color.NRGBA64{R: uint16(x * 257), G: 0xFFFF, B: uint16(y), A: alphaAt(x, y)})
+					if srcKind == "RGBA64" {
+						m := image.NewRGBA64(srcParent)
+						for y := 0; y < 256; y++ {
+							for x := 0; x < 256; x++ {
+								a := alphaAt(x, y)
+								m.SetRGBA64(x-5, y+3, color.RGBA64{R: a / 2, G: a, B: a / 7, A: a})
+							}
 						}
-					}
-					src = m
-				}
-				dst := image.NewRGBA64(image.Rect(0, 0, 256, 256))
-				for i := range dst.Pix {
-					dst.Pix[i] = 0xAB
-				}
-				c := Case{Check: "image-" + op + "-" + srcKind, Space: s.Name}
-				pn, msg := ev.Guard(func() {
-					if op == "Linearise" {
-						s.LineariseImage(dst, src, 3)
+						src = m.SubImage(image.Rect(-5, 3, 251, 259))
 					} else {
-						s.EncodeImage(dst, src, 3)
-					}
-				})
-				evals += 65536
-				nt += 65534
-				if pn {
-					ev.Violation("alpha", s.Name+"/"+c.Check+"/panic", msg, c)
-					continue
-				}
-				for y := 0; y < 256; y++ {
-					for x := 0; x < 256; x++ {
-						o := dst.RGBA64At(x, y)
-						a := alphaAt(x, y)
-						bad := ""
-						switch {
-						case o.A != a:
-							bad = "alpha-roundtrip"
-						case a == 0 && (o.R != 0 || o.G != 0 || o.B != 0):
-							bad = "transparent"
-						case op == "Linearise" && (o.R > o.A || o.G > o.A || o.B > o.A):
-							bad = "premultiplied"
+						m := image.NewNRGBA64(srcParent)
+						for y := 0; y < 256; y++ {
+							for x := 0; x < 256; x++ {
+								m.SetNRGBA64(x-5, y+3, color.NRGBA64{R: uint16(x * 257), G: 0xFFFF, B: uint16(y), A: alphaAt(x, y)})
+							}
 						}
-						if bad != "" {
-							c.A, c.C = uint32(a), [3]uint32{uint32(x), uint32(y), 0}
-							ev.Violation("alpha", s.Name+"/"+c.Check+"/"+bad, fmt.Sprintf("%s %sImage(%s source, reused destination): pixel with alpha %d came out as %v", s.Name, op, srcKind, a, o), c)
-							y = 256
-							break
+						src = m.SubImage(image.Rect(-5, 3, 251, 259))
+					}
+					dst := image.NewRGBA64(image.Rect(0, 0, 256, 256))
+					if layout == "destination is a sub-image" {
+						dst = image.NewRGBA64(image.Rect(-3, -2, 261, 257))
+					}
+					for i := range dst.Pix {
+						dst.Pix[i] = 0xAB
+					}
+					dst = dst.SubImage(image.Rect(0, 0, 256, 256)).(*image.RGBA64)
+					c := Case{Check: "image-" + op + "-" + srcKind + " (" + layout + ")", Space: s.Name}
+					ev.Journal("alpha", c) // a panic on one of the transform's worker goroutines ends the process
+					pn, msg := ev.Guard(func() {
+						if op == "Linearise" {
+							s.LineariseImage(dst, src, 3)
+						} else {
+							s.EncodeImage(dst, src, 3)
+						}
+					})
+					evals += 65536
+					nt += 65534
+					if pn {
+						ev.Violation("alpha", s.Name+"/"+c.Check+"/panic", msg, c)
+						continue
+					}
+					for y := 0; y < 256; y++ {
+						for x := 0; x < 256; x++ {
+							o := dst.RGBA64At(x, y)
+							a := alphaAt(x, y)
+							bad := ""
+							switch {
+							case o.A != a:
+								bad = "alpha-roundtrip"
+							case a == 0 && (o.R != 0 || o.G != 0 || o.B != 0):
+								bad = "transparent"
+							case op == "Linearise" && (o.R > o.A || o.G > o.A || o.B > o.A):
+								bad = "premultiplied"
+							}
+							if bad != "" {
+								c.A, c.C = uint32(a), [3]uint32{uint32(x), uint32(y), 0}
+								ev.Violation("alpha", s.Name+"/"+c.Check+"/"+bad, fmt.Sprintf("%s %sImage(%s source, reused destination): pixel with alpha %d came out as %v", s.Name, op, srcKind, a, o), c)
+								y = 256
+								break
+							}
 						}
 					}
 				}
